@@ -17,6 +17,7 @@ import (
 	"github.com/mutagen-io/mutagen/pkg/synchronization"
 	"github.com/mutagen-io/mutagen/pkg/synchronization/core"
 	urlpkg "github.com/mutagen-io/mutagen/pkg/url"
+	"github.com/mutagen-io/mutagen/pkg/verif"
 
 	"verif/simkit"
 )
@@ -199,7 +200,7 @@ func genModel(p *simkit.Plan, r *simkit.Rand, tier string) {
 				}
 				p.Ops = append(p.Ops, op)
 				if r.Chance(1, 4) {
-					k2 := simkit.Pick(r, []string{"list", "flush", "sleep"})
+					k2 := simkit.Pick(r, []string{"list", "flush", "sleep", "resume", "resume", "pause"})
 					op2 := simkit.Op{Actor: "client2", Kind: k2, N: []int64{0}}
 					if k2 == "sleep" {
 						op2.N = []int64{500}
@@ -210,6 +211,17 @@ func genModel(p *simkit.Plan, r *simkit.Rand, tier string) {
 				p.Ops = append(p.Ops, simkit.Op{Actor: "client", Kind: "flush", N: []int64{int64(r.Intn(2))}})
 			}
 		}
+	}
+	if lifecycle && r.Chance(1, 4) {
+		// Two callers at once: a command that stops the session (it holds the
+		// controller while the loop winds down) and another caller's Resume
+		// that arrives meanwhile and queues behind it.
+		first := simkit.Pick(r, []string{"terminate", "terminate", "pause", "reset"})
+		p.Ops = append(p.Ops, simkit.Op{Actor: "client", Kind: "flush", N: []int64{1}},
+			simkit.Op{Actor: "client", Kind: first},
+			simkit.Op{Actor: "client2", Kind: "resume", N: []int64{0}},
+			simkit.Op{Actor: "client2", Kind: "sleep", N: []int64{2000}},
+			simkit.Op{Actor: "client2", Kind: "list", N: []int64{0}})
 	}
 	if !lifecycle && p.Scenario != "model-halt" && p.Scenario != "disk-halt" && p.Scenario != "model-outcomes-enum" && (r.Chance(1, 6) || strings.HasSuffix(p.Scenario, "-crash")) {
 		// The daemon crashes at an arbitrary point of the history (whatever it is
@@ -650,8 +662,14 @@ func execSession(t *testing.T, plan *simkit.Plan) *simkit.Result {
 		}
 		setHook(nil)
 		filesystem.VerifAtomicStepHook = nil
+		verif.YieldHook = nil
 		current = nil
 	}()
+	verif.YieldHook = func(site string) {
+		if h != nil {
+			h.lifecycleYield(site)
+		}
+	}
 	res := simkit.RunPhases(t, plan, simkit.Options{MaxSteps: 20000, Horizon: 20 * time.Minute, RealTimeout: 90 * time.Second}, func(s *simkit.Sim, phase int) bool {
 		if phase == 0 {
 			h = &harness{
@@ -831,6 +849,12 @@ func execSession(t *testing.T, plan *simkit.Plan) *simkit.Result {
 		}
 		allDone := func() bool { mu.Lock(); defer mu.Unlock(); return running == 0 || crashNow || s.Crashed() }
 		s.Eligible = func(g *simkit.Gate) bool {
+			if strings.HasPrefix(g.Label, "lk.") {
+				// A caller waiting for the controller's lifecycle lock.
+				h.mu.Lock()
+				defer h.mu.Unlock()
+				return h.lifecycleHeld == 0
+			}
 			if !strings.HasPrefix(g.Label, "client") && g.Label != "settle" {
 				return true
 			}
@@ -839,7 +863,11 @@ func execSession(t *testing.T, plan *simkit.Plan) *simkit.Result {
 			if h.mgrBusy {
 				return false
 			}
-			if h.lifecycleBusy && g.Key != "sleep" && g.Key != "list" {
+			// While a lifecycle command is in flight another caller may pause,
+			// resume or flush (the controller's lifecycle lock is emulated by
+			// gates, see lifecycleYield); commands that replace the manager or
+			// end the session wait for it.
+			if h.lifecycleBusy > 0 && g.Key != "sleep" && g.Key != "list" && g.Key != "pause" && g.Key != "resume" && g.Key != "flush" {
 				return false
 			}
 			return true
@@ -1004,7 +1032,7 @@ func (h *harness) noteCrash() {
 			c.ret = -1 // never returns: its daemon is gone
 		}
 	}
-	h.lifecycleBusy, h.mgrBusy = false, false
+	h.lifecycleBusy, h.resumeInFlight, h.lifecycleHeld, h.mgrBusy = 0, 0, 0, false
 	// C05 across a crash: while a cycle's transitions have not all returned,
 	// no endpoint has reported anything for it, so the archive on disk must
 	// still be exactly the state that cycle started from.
@@ -1192,6 +1220,43 @@ func (h *harness) settle() {
 		s.Violate("C04", "not-a-fixpoint", "archive", "the quiet cycle rewrote the archive although nothing changed")
 	}
 	s.Logf("settle", "quiet flush -> %v", err)
+}
+
+// lifecycleYield emulates the controller's lifecycle lock with gates. The
+// build inserts a yield site before every statement of pkg/synchronization that
+// takes a lock and after every one that releases it (cmd/check/autoyield.go).
+// A caller that would wait for the lifecycle lock inside sync.Mutex - where no
+// simulator can see it, and where it would keep the bubble from ever becoming
+// idle while the holder waits for gates of its own - waits at a gate instead,
+// which is released only while the lock is free. Two callers' lifecycle commands
+// can therefore overlap (one queued behind the other), in an order the scheduler
+// decides.
+func (h *harness) lifecycleYield(site string) {
+	if !strings.HasPrefix(site, "auto:synchronization.") || !strings.Contains(site, "(c.lifecycleLock)") {
+		return
+	}
+	s := h.s
+	if strings.Contains(site, ":before-lock(") {
+		if label := s.ActorLabel(); label != "" && !s.PassThrough() {
+			h.mu.Lock()
+			contended := h.lifecycleHeld > 0
+			h.mu.Unlock()
+			if contended {
+				s.Count("probe.lifecycle_lock_contended", 1)
+			}
+			s.Gate("lk."+label, "lifecycle-lock")
+		}
+		h.mu.Lock()
+		h.lifecycleHeld++
+		h.mu.Unlock()
+		return
+	}
+	h.mu.Lock()
+	if h.lifecycleHeld > 0 {
+		h.lifecycleHeld--
+	}
+	h.mu.Unlock()
+	s.Wake()
 }
 
 // haltPhase performs the root event of the C11 scenarios and watches.
